@@ -1,5 +1,5 @@
 (** C20 — the finite statement about the regenerated schema/loader tables. *)
-From HV Require Import Base.Prelude C20.SchemaModel Gen.SchemaTables Gen.SchemaTablesOk.
+From HV Require Import Base.Prelude C20.SchemaModel C20.SchemaPinned Gen.SchemaTables Gen.SchemaTablesOk.
 Local Open Scope string_scope.
 
 Lemma row_eqb_eq a b : row_eqb a b = true -> a = b.
@@ -16,25 +16,28 @@ Lemma schema_loader_agree :
             row_agrees schema_tbl loader_tbl r = true.
 Proof.
   intros r Hin Hg. assert (H := tables_agree). unfold tables_ok in H.
-  apply andb_true_iff in H as [H _]. rewrite forallb_forall in H.
-  specialize (H r Hin). rewrite Hg in H. exact H.
+  rewrite forallb_forall in H. specialize (H r Hin). rewrite Hg in H. exact H.
 Qed.
 
-(** no stale guard: every recorded row is a row of the current tables on which
-    schema and loader still disagree *)
+Lemma pinned_recorded : recorded_all_disagree pinned_schema_tbl pinned_loader_tbl = true.
+Proof. vm_compute. reflexivity. Qed.
+
+(** no stale guard: every recorded row is a row of the pinned tables on which
+    schema and loader disagree *)
 Lemma F1_rows_all_disagree :
-  forall r, In r known_F1 -> In r (all_rows schema_tbl loader_tbl) /\ row_agrees schema_tbl loader_tbl r = false.
+  forall r, In r known_F1 ->
+    In r (all_rows pinned_schema_tbl pinned_loader_tbl) /\ row_agrees pinned_schema_tbl pinned_loader_tbl r = false.
 Proof.
-  intros r Hin. assert (H := tables_agree). unfold tables_ok in H.
-  apply andb_true_iff in H as [_ H]. rewrite forallb_forall in H.
+  intros r Hin. assert (H := pinned_recorded). unfold recorded_all_disagree in H.
+  rewrite forallb_forall in H.
   specialize (H r Hin). apply existsb_exists in H as (x & Hx & E). apply row_eqb_eq in E. subst x.
   unfold disagreements in Hx. apply filter_In in Hx as [A B]. split; [assumption|].
   apply negb_true_iff. assumption.
 Qed.
 
 Lemma F1_refuted :
-  exists r, In r (all_rows schema_tbl loader_tbl) /\ guard_F1 r = true /\
-            row_agrees schema_tbl loader_tbl r = false.
+  exists r, In r (all_rows pinned_schema_tbl pinned_loader_tbl) /\ guard_F1 r = true /\
+            row_agrees pinned_schema_tbl pinned_loader_tbl r = false.
 Proof.
   exists (ROpt "error_handlers" "redirect" "code").
   destruct (F1_rows_all_disagree (ROpt "error_handlers" "redirect" "code")) as [A B].
